@@ -569,7 +569,7 @@ func corpusHandmade() {
 
 		// script path: leaf = <leafKey> CHECKSIG, tree of depth 0, 1, 2
 		leafScr := cat(pushData(leafKey.X), []byte{0xac})
-		for depth := 0; depth <= 2; depth++ {
+		for _, depth := range []int{0, 1, 2, 127, 128, 129} {
 			lh := tapLeaf(0xc0, leafScr)
 			root := lh
 			var path []byte
@@ -594,6 +594,9 @@ func corpusHandmade() {
 			c = mk("valid-annex")
 			c.setWit(signTap(c, g, leafKey.Priv, annex, lh, 0xffffffff, 1, true), leafScr, control, annex)
 			run(c)
+			if depth > 2 {
+				continue // deep trees: only the commitment-valid spends (control block of 33+32*depth bytes)
+			}
 			c = mk("wrong-parity")
 			c.setWit(signTap(c, g, leafKey.Priv, nil, lh, 0xffffffff, 0, true), leafScr, cat([]byte{ctl0 ^ 1}, tk.X, path))
 			run(c)
